@@ -171,7 +171,8 @@ type c01Pos struct {
 
 func c01one(t *testing.T, out *verifh.Out, r *rand.Rand, dir string) {
 	n := 2 + r.Intn(4)
-	semi := r.Intn(5) != 0
+	mode := r.Intn(10) // 0-5 semi-sync, 6-7 async mode (allowed-lag exception configured), 8-9 neither
+	semi := mode <= 5
 	w := 1 + r.Intn(2)
 	wd, tree, hosts := vStdWorld(n, semi, w)
 	master := hosts[0]
@@ -182,7 +183,7 @@ func c01one(t *testing.T, out *verifh.Out, r *rand.Rand, dir string) {
 	cfg.WaitReplicationStartTimeout = 3 * time.Second
 	cfg.DBSetRoForceTimeout = 10 * time.Second
 	cfg.PriorityChoiceMaxLag = 60 * time.Second
-	async := !semi && r.Intn(2) == 0
+	async := mode == 6 || mode == 7
 	if async {
 		cfg.ASync, cfg.ReplMon, cfg.AsyncAllowedLag = true, true, 60*time.Second
 		tree.Put("master_repl_mon_ts", "1000.000")
@@ -218,7 +219,8 @@ func c01one(t *testing.T, out *verifh.Out, r *rand.Rand, dir string) {
 			}
 			nd.Executed += "," + foreign + ":1-3"
 		}
-		if r.Intn(5) == 0 { // SQL thread broken: what was downloaded is never applied, so this host can never catch up
+		nd.ReplMonDelay = int64([]int{0, 30, 59, 60, 61, 500}[r.Intn(6)])
+		if r.Intn(5) == 0 || (mode == 6 && r.Intn(2) == 0) { // SQL thread broken: what was downloaded is never applied, so this host can never catch up
 			nd.Repl.SQL, nd.Repl.SQLErrno = false, 1062
 		}
 		nd.LagWhenRunning = float64([]int{0, 0, 10, 59, 60, 61, 500}[r.Intn(7)])
